@@ -38,7 +38,8 @@ head = f"""# Independently written property-breaking changes: confirmation and d
 Each change was written by a sub-agent that saw only the text of one property and a scratch worktree of the repository
 (nothing from /verif). Round 1 = `<property>_1`, `_2`; round 2 (prompt asking for subtler, corner-case changes) = `_3`, `_4`;
 round 3 (prompt asking for changes that need something specific to manifest: a fault, a second thread, a second session,
-an unusual value) = `_5`, `_6`; round 4 (no caching shortcuts) = `_7`, `_8`; round 5 (less common API usage and data) = `_9`, `_10`.
+an unusual value) = `_5`, `_6`; round 4 (no caching shortcuts) = `_7`, `_8`; round 5 (less common API usage and data) = `_9`, `_10`;
+round 6 (cooperating sites, third-step state, the in-place merge, rarely used methods, nesting x buffering, boundaries) = `_11`, `_12`.
 `confirmed` = I re-ran, on a scratch copy of /repo: the demo passes on the clean copy, fails with the
 patch applied, and the pinned suite (578 tests) passes with the patch. `caught by` = `./check <id> --tier quick` exits 1 with a
 VIOLATION line when VERIF_REPO points at the patched copy (tools/seeded.py eval). Patches are kept applicable to the current
